@@ -861,3 +861,11 @@ Theorem c13_pinned_code_modelled :
   RM.Gen.C13Sites.pinned_model_code = map fst modelled_pinned_code.
 Proof. reflexivity. Qed.
 Print Assumptions c13_pinned_code_modelled.
+
+(* ---- the thread_local print context is written by the printers themselves, first thing, and by nobody else; it is read only by
+   Display for Address (compared on every oracle case: one state printed after dumps of both pointer widths were processed and
+   printed on the same thread, and on a fresh OS thread, must give the bytes of the plain build-then-print run) *)
+Theorem c13_print_context_set_by_printers :
+  RM.Gen.C13Sites.print_context_sites = map fst modelled_print_context_sites.
+Proof. reflexivity. Qed.
+Print Assumptions c13_print_context_set_by_printers.
